@@ -6,8 +6,8 @@
    Model/Literal.v (PRQL literal spellings -> values -> SQL text).
    Tables: Gen/GenLiteral.v, regenerated from /repo on every run (vplib/props/c08_gen.py). *)
 From Coq Require Import List NArith ZArith Bool.
-From PV Require Import Lib.ListX Model.Escape Model.SqlLex Model.SqlLexBq Model.Interval Model.Literal Model.FloatFmt
-                       Proofs.EscapeProofs Proofs.SqlLexBqProofs Proofs.LiteralProofs Proofs.FloatFmtProofs Proofs.IntervalProofs Gen.GenLiteral.
+From PV Require Import Lib.ListX Model.Escape Model.SqlLex Model.SqlLexBq Model.Interval Model.Literal Model.FloatFmt Model.FloatRyu
+                       Proofs.EscapeProofs Proofs.SqlLexBqProofs Proofs.LiteralProofs Proofs.FloatFmtProofs Proofs.FloatRyuProofs Proofs.IntervalProofs Gen.GenLiteral.
 Import ListNotations.
 Local Open Scope N_scope.
 
@@ -345,6 +345,18 @@ Proof.
 Qed.
 Print Assumptions based_literal_value_or_split.
 
+(* Spellings of ANY length (16, 17 and more significant digits, subnormals): Model/FloatRyu.v emit_float_ryu = nearest
+   binary64 of the spelling (round64, ties to even), the shortest digits that identify it (shortest), the {:?} layout.
+   Compared with prqlc's text and with the lexer's binary64 bit pattern on every float spelling of the check.
+   Whatever it emits is one number token, denotes exactly the chosen decimal D * 10^x, and that decimal lies in the
+   rounding interval of the binary64 the spelling denotes -- so a correctly rounding reader gets the same float back. *)
+Theorem float_shortest_digits_roundtrip : forall m e t, emit_float_ryu m e = Some t ->
+  exists f D x, round64 m e = Some f /\ shortest f = Some (D, x) /\
+                sql_number_value t = Some (norm_dec D x) /\ (forall d, sql_lex d t = [TNumber t]) /\
+                (fst f <> 0 -> in_interval f (dec_rat D x) = true).
+Proof. exact emit_float_ryu_spec. Qed.
+Print Assumptions float_shortest_digits_roundtrip.
+
 (* a negative float (folded negation): minus sign and number, two tokens *)
 Theorem float_negative_tokens : forall d m e, sql_lex d (45 :: emit_float m e) = [TPunct 45; TNumber (emit_float m e)].
 Proof. exact emit_float_neg_tokens. Qed.
@@ -419,6 +431,13 @@ Example c08_ex_interval :
   interval_text ifields (IValueAndUnitQuoted, IValueQuoted) (digits_of 3) [109;111;110;116;104;115] = Some [73;78;84;69;82;86;65;76;32;39;51;39;32;77;79;78;84;72]   (* redshift: INTERVAL '3' MONTH *)
   /\ interval_text ifields (IValueAndUnitQuoted, IValueQuoted) (digits_of 3) [119;101;101;107;115] = Some [73;78;84;69;82;86;65;76;32;39;51;32;87;69;69;75;39]   (* INTERVAL '3 WEEK' *)
   /\ lex_interval iunits [49;95;48;100;97;121;115;32] = Some (LInterval 10 [100;97;121;115], [32]).                                                        (* 1_0days *)
+Proof. vm_compute. repeat split; reflexivity. Qed.
+Example c08_ex_float_shortest :
+  emit_float_ryu 30000000000000004 (-17) = Some [48;46;51;48;48;48;48;48;48;48;48;48;48;48;48;48;48;48;52]            (* 0.30000000000000004 *)
+  /\ emit_float_ryu 77599167732632576 (-2) = Some [55;55;53;57;57;49;54;55;55;51;50;54;51;50;53;46;56]                 (* 775991677326325.8: a tie, even digit *)
+  /\ emit_float_ryu 9007199254740993 0 = Some [57;48;48;55;49;57;57;50;53;52;55;52;48;57;57;50;46;48]                  (* 2^53+1 -> 9007199254740992.0 *)
+  /\ option_map bits64 (round64 1 (-1)) = Some 4591870180066957722                                                     (* 0.1 = 0x3FB999999999999A *)
+  /\ emit_float_ryu 17976931348623159 292 = None.
 Proof. vm_compute. repeat split; reflexivity. Qed.
 Example c08_ex_context : closed_prefix std_sql [83;69;76;69;67;84;32] = true.                       (* "SELECT " *)
 Proof. vm_compute. reflexivity. Qed.
